@@ -18,6 +18,9 @@ tie    : (T) translate/t_static.py regenerates the inventory of static-storage o
          (B) metamorphic stream through tapkee::embed (12 deterministic methods): embedding distance
              matrices of transformed inputs, tolerance 1e-6 (1e-4 for translations of kernel methods),
              guarded by a conditioning probe (same input with relative noise);
+         (N) neighbour stream: tapkee_internal::find_neighbors (brute / vptree / covertree, plain and kernel
+             distance, with and without the connectivity doubling) on tie-free data and its permuted image:
+             same number of neighbours, neighbour SETS relabelled;
          (H) history stream: sequences of 2-6 embed calls in one process (other methods, randomized
              methods, failing calls in between) against fresh-process runs, bitwise, one thread.
 search : when a proof / table / correspondence no longer checks: the three streams at 5x budget.
@@ -550,7 +553,10 @@ def eval_assembly(ctx, exe, mexe, cases, stats):
         Dg, Dgp = float_table(tabs[0], "D"), float_table(tabs[1], "D")
         W, Wp = float_table(tabs[2], "M"), float_table(tabs[3], "M")
         G, Gp = float_table(tabs[4], "M"), float_table(tabs[5], "M")
-        if any(t is None for t in (L, Lp, Dg, Dgp, W, Wp, G, Gp)) or len(L) != N or len(W) != N or len(G) != N:
+        def shp(M, r, cc):
+            return M is not None and len(M) == r and all(len(row) == cc for row in M)
+        if not (shp(L, N, N) and shp(Lp, N, N) and shp(Dg, N, 1) and shp(Dgp, N, 1) and shp(W, N, N)
+                and shp(Wp, N, N) and shp(G, N, N) and shp(Gp, N, N)):
             ctx.violation(jc, "an assembly routine returned non-finite entries / a wrong shape on finite input")
             continue
         def pact(M):
@@ -678,7 +684,7 @@ def householder(v):
 def gen_meta_case(rng, method=None, kind=None):
     method = method or rng.choice(DET_METHODS)
     needs_k, trans_ok, scale_ok, kernel = METHODS[method]
-    kinds = ["perm", "rot"] + (["trans"] if trans_ok else []) + (["scale"] if scale_ok else [])
+    kinds = ["perm", "rot"] + (["trans", "combo"] if trans_ok else []) + (["scale"] if scale_ok else [])
     kind = kind or rng.choice(kinds)
     N = rng.randint(14, 30)
     D = rng.choice([3, 3, 4, 5])
@@ -704,21 +710,21 @@ def gen_meta_case(rng, method=None, kind=None):
     if method == "dm":
         params["ts"] = rng.choice([1, 2, 3])
     tr = {"kind": kind}
-    if kind == "perm":
+    if kind in ("perm", "combo"):
         ql = list(range(N))
         rng.shuffle(ql)
         if rng.random() < 0.25:
             ql = list(range(N))[::-1]
         tr["ql"] = ql
-    elif kind == "rot":
+    if kind in ("rot", "combo"):
         R = householder([rng.gauss(0, 1) for _ in range(D)])
         if rng.random() < 0.7:
             R2 = householder([rng.gauss(0, 1) for _ in range(D)])
             R = [[sum(R[a][t] * R2[t][b] for t in range(D)) for b in range(D)] for a in range(D)]
         tr["R"] = R
-    elif kind == "trans":
+    if kind in ("trans", "combo"):
         tr["t"] = [rng.choice([-1, 1]) * 1e3 * rng.random() for _ in range(D)]
-    else:
+    if kind == "scale":
         tr["c"] = 10 ** rng.uniform(-3, 3)
     return {"stream": "meta", "method": method, "params": params, "N": N, "D": D, "data": dk, "X": X, "tr": tr,
             "noise_seed": rng.randrange(1 << 30)}
@@ -734,6 +740,10 @@ def meta_image(case):
         return [[sum(R[a][b] * X[i][b] for b in range(D)) for a in range(D)] for i in range(N)]
     if k == "trans":
         return [[X[i][a] + tr["t"][a] for a in range(D)] for i in range(N)]
+    if k == "combo":      # rotate / reflect, translate, then reorder
+        R = tr["R"]
+        Y = [[sum(R[a][b] * X[i][b] for b in range(D)) + tr["t"][a] for a in range(D)] for i in range(N)]
+        return [Y[tr["ql"][i]] for i in range(N)]
     return [[tr["c"] * v for v in row] for row in X]
 
 
@@ -741,13 +751,13 @@ def noise_level(case):
     """relative size of the rounding noise the transformation itself injects into what the method reads"""
     k = case["tr"]["kind"]
     kernel = METHODS[case["method"]][3]
-    if k == "trans":
+    if k in ("trans", "combo"):
         return 1e-9 if kernel else 1e-12
     return 1e-14
 
 
 def meta_tol(case):
-    if case["tr"]["kind"] == "trans" and METHODS[case["method"]][3]:
+    if case["tr"]["kind"] in ("trans", "combo") and METHODS[case["method"]][3]:
         return 1e-4
     return 1e-6
 
@@ -806,7 +816,7 @@ def eval_meta(ctx, exe, cases, stats, hist):
         X, Xp = c["X"], meta_image(c)
         nrng = random.Random(c["noise_seed"])
         eps = noise_level(c)
-        if c["tr"]["kind"] == "trans":
+        if c["tr"]["kind"] in ("trans", "combo"):
             # the translated data carry ABSOLUTE rounding noise ~ ulp(|t|): mimic it on the original
             Xn = [[v + eps * (2 * nrng.random() - 1) for v in row] for row in X]
         else:
@@ -844,7 +854,7 @@ def eval_meta(ctx, exe, cases, stats, hist):
             continue
         Dm, Dp = dist_matrix(Y), dist_matrix(Yp)
         k = c["tr"]["kind"]
-        if k == "perm":
+        if k in ("perm", "combo"):
             ql = c["tr"]["ql"]
             Dexp = [[Dm[ql[i]][ql[j]] for j in range(N)] for i in range(N)]
         elif k == "scale":
@@ -870,10 +880,92 @@ def eval_meta(ctx, exe, cases, stats, hist):
         ctx.violation(c, "%s embedding is not %s under a %s of the input: embedding distance matrices differ by %.3g "
                          "(relative to the largest distance; tolerance %.0e; the same input with relative noise %.0e "
                          "moves them by only %.3g)" % (
-                             c["method"], "equivariant" if k in ("perm", "scale") else "invariant",
+                             c["method"], "equivariant" if k in ("perm", "scale", "combo") else "invariant",
                              {"perm": "permutation", "rot": "rotation/reflection", "trans": "translation",
-                              "scale": "scaling"}[k], err, tol, noise_level(c), cond))
+                              "scale": "scaling", "combo": "rigid motion followed by a permutation"}[k],
+                             err, tol, noise_level(c), cond))
         stats["meta_violations"] = stats.get("meta_violations", 0) + 1
+    return evals
+
+
+# --------------------------------------------------------------------------------------------- neighbour stream
+def gen_nbr_case(rng):
+    N = rng.randint(8, 40)
+    D = rng.choice([1, 2, 3, 5])
+    dk = rng.choice(["blob", "chain_cluster", "chain_cluster", "roll" if D >= 3 else "blob"])
+    X = gen_float_data(rng, N, D, dk)
+    ql = list(range(N))
+    rng.shuffle(ql)
+    if rng.random() < 0.3:
+        ql = list(range(N))[::-1]
+    return {"stream": "nbr", "N": N, "D": D, "data": dk, "X": X, "ql": ql,
+            "params": {"nm": rng.choice(["brute", "vptree", "covertree"]), "k": rng.randint(2, min(8, N - 1)),
+                       "cc": rng.choice([0, 1, 1]), "kd": rng.choice([0, 0, 1])}}
+
+
+def nbr_cmd(params, N, D, X):
+    kv = " ".join("%s=%s" % (k, v) for k, v in sorted(params.items()))
+    return "NBR %s N=%d D=%d\nX %s" % (kv, N, D, " ".join(float(v).hex() for row in X for v in row))
+
+
+def parse_nbr(res, N):
+    if crashed(res):
+        return ("crash", res["crash"])
+    if res and res[0] == "EXC":
+        return ("exc", " ".join(res[1:2]))
+    try:
+        if res[0] != "OK" or res[1] != "NB" or int(res[2]) != N:
+            return ("bad", " ".join(res[:4]))
+        rows, i = [], 3
+        for _ in range(N):
+            ln = int(res[i])
+            rows.append([int(v) for v in res[i + 1:i + 1 + ln]])
+            if len(rows[-1]) != ln:
+                return ("bad", "short list")
+            i += 1 + ln
+        return ("ok", rows)
+    except (ValueError, IndexError):
+        return ("bad", "unparsable")
+
+
+def eval_nbr(ctx, exe, cases, stats, hist):
+    if not cases:
+        return 0
+    cmds = []
+    for c in cases:
+        Xp = [c["X"][c["ql"][i]] for i in range(c["N"])]
+        cmds += [nbr_cmd(c["params"], c["N"], c["D"], c["X"]), nbr_cmd(c["params"], c["N"], c["D"], Xp)]
+    res = run_impl(ctx, exe, cmds, timeout=600, env={"OMP_NUM_THREADS": "1"})
+    evals = 0
+    for ci, c in enumerate(cases):
+        N, ql = c["N"], c["ql"]
+        a, b = parse_nbr(res[2 * ci], N), parse_nbr(res[2 * ci + 1], N)
+        evals += 1
+        hist["nbr/" + c["params"]["nm"]] = hist.get("nbr/" + c["params"]["nm"], 0) + 1
+        if a[0] in ("crash", "bad") or b[0] in ("crash", "bad"):
+            r = a if a[0] in ("crash", "bad") else b
+            ctx.violation(c, "find_neighbors aborts / returns garbage: " + str(r[1])[:300])
+            continue
+        if a[0] != b[0] or (a[0] == "exc" and a[1] != b[1]):
+            ctx.violation(c, "find_neighbors %s on the samples in one order and %s in another" % (a, b))
+            continue
+        if a[0] == "exc":
+            continue
+        A, B = a[1], b[1]
+        pos = {old: new for new, old in enumerate(ql)}
+        lens = {len(r) for r in A} | {len(r) for r in B}
+        if len(lens) != 1:
+            ctx.violation(c, "neighbour lists of unequal length / number of neighbours depends on the sample order: %s" % sorted(lens))
+            continue
+        if any(not all(0 <= y < N for y in r) for r in A + B):
+            ctx.violation(c, "a neighbour index is out of range")
+            continue
+        bad = [i for i in range(N) if set(B[i]) != {pos[y] for y in A[ql[i]]}]
+        if bad:
+            i = bad[0]
+            ctx.violation(c, "neighbour SET of the sample at new position %d (old %d) is not the relabelled set: %s vs %s "
+                             "(generic data, no distance ties)" % (i, ql[i], sorted(B[i]), sorted(pos[y] for y in A[ql[i]])))
+            stats["nbr_violations"] = stats.get("nbr_violations", 0) + 1
     return evals
 
 
@@ -1000,8 +1092,10 @@ def check_inventory(ctx, tres):
 # --------------------------------------------------------------------------------------------- main
 def budgets(ctx, factor=1):
     if ctx.quick:
-        return {"exact": 240 * factor, "assembly": 40 * factor, "meta": 160 * factor, "history": 24 * factor}
-    return {"exact": 3000 * factor, "assembly": 600 * factor, "meta": 2400 * factor, "history": 240 * factor}
+        return {"exact": 240 * factor, "assembly": 40 * factor, "meta": 400 * factor, "history": 40 * factor,
+                "nbr": 200 * factor}
+    return {"exact": 3000 * factor, "assembly": 600 * factor, "meta": 4000 * factor, "history": 300 * factor,
+            "nbr": 3000 * factor}
 
 
 def generate(rng, b):
@@ -1011,7 +1105,7 @@ def generate(rng, b):
     combos = []
     for m in DET_METHODS:
         _, trans_ok, scale_ok, _ = METHODS[m]
-        for k in ["perm", "rot"] + (["trans"] if trans_ok else []) + (["scale"] if scale_ok else []):
+        for k in ["perm", "rot"] + (["trans", "combo"] if trans_ok else []) + (["scale"] if scale_ok else []):
             combos.append((m, k))
     i = 0
     while len(meta) < b["meta"]:
@@ -1022,11 +1116,12 @@ def generate(rng, b):
         i += 1
     history = [gen_history(rng) for _ in range(b["history"])]
     assembly = [gen_assembly_case(rng) for _ in range(b["assembly"])]
-    return exact, meta, history, assembly
+    nbr = [gen_nbr_case(rng) for _ in range(b["nbr"])]
+    return exact, meta, history, assembly, nbr
 
 
 def corpus_cases(ctx):
-    exact, meta, history, assembly = [], [], [], []
+    exact, meta, history, assembly, nbr = [], [], [], [], []
     for name, c in ctx.corpus():
         c = c.get("case", c)
         s = c.get("stream")
@@ -1038,7 +1133,9 @@ def corpus_cases(ctx):
             history.append(c)
         elif s == "assembly":
             assembly.append(case_from_json(c))
-    return exact, meta, history, assembly
+        elif s == "nbr":
+            nbr.append(c)
+    return exact, meta, history, assembly, nbr
 
 
 def run(ctx):
@@ -1080,13 +1177,14 @@ def run(ctx):
 
     stats, hist = {}, {}
     b = budgets(ctx)
-    cex, cme, chi, cas = corpus_cases(ctx)
-    exact, meta, history, assembly = generate(rng, b)
+    cex, cme, chi, cas, cnb = corpus_cases(ctx)
+    exact, meta, history, assembly, nbr = generate(rng, b)
     n = 0
     n += eval_exact(ctx, exe, mexe, cex + exact, stats)
     n += eval_assembly(ctx, exe, mexe, cas + assembly, stats)
     t_exact = ctx.elapsed()
     n += eval_meta(ctx, eexe, cme + meta, stats, hist)
+    n += eval_nbr(ctx, eexe, cnb + nbr, stats, hist)
     t_meta = ctx.elapsed()
     n += eval_history(ctx, eexe, chi + history, stats, hist)
     stats["seconds"] = {"build+proofs+translator": round(t_build, 1), "exact": round(t_exact - t_build, 1),
@@ -1098,13 +1196,16 @@ def run(ctx):
         sb = budgets(ctx, 5)
         if not inv_ok:
             sb["history"] *= 3
-        e2, m2, h2, a2 = generate(rng, sb)
+        e2, m2, h2, a2, n2 = generate(rng, sb)
         n += eval_exact(ctx, exe, mexe, e2, stats)
         if not ctx.has_violation():
             n += eval_assembly(ctx, exe, mexe, a2, stats)
             assembly += a2
         if not ctx.has_violation():
             n += eval_meta(ctx, eexe, m2, stats, hist)
+        if not ctx.has_violation():
+            n += eval_nbr(ctx, eexe, n2, stats, hist)
+            nbr += n2
         if not ctx.has_violation():
             n += eval_history(ctx, eexe, h2, stats, hist)
         exact += e2
@@ -1126,6 +1227,8 @@ def run(ctx):
         distinct.add(hashlib.sha1(json.dumps(c, sort_keys=True).encode()).hexdigest())
     for c in assembly:
         distinct.add(hashlib.sha1(json.dumps(case_to_json(c), sort_keys=True).encode()).hexdigest())
+    for c in nbr:
+        distinct.add(hashlib.sha1(json.dumps(c, sort_keys=True).encode()).hexdigest())
     hist["assembly"] = len(assembly)
     samples = [case_to_json(exact[0])] if exact else []
     if meta:
@@ -1138,7 +1241,7 @@ def run(ctx):
         evaluations=n, distinct_nontrivial=len(distinct),
         rule="evaluations = relation / table comparisons on the exact stream (10 model tables + 4-6 relations per "
              "case) + assembly comparisons (perm relation of L, D, KLLE and KLTSA matrices, model tables) + "
-             "metamorphic pairs + history comparisons; distinct_nontrivial = distinct cases (hash of the "
+             "metamorphic pairs + neighbour-set pairs + history comparisons; distinct_nontrivial = distinct cases (hash of the "
              "whole case) whose transformation is not the identity. Exact stream: n in {2,4,8,16}, D <= 4, dyadic "
              "data (generic, duplicates, collinear, constant column, lattice), transformations perm / exact "
              "orthogonal dyadic maps / translations up to 2000 / scales 2^k, 3, 5/4, negative. Metamorphic: 12 "
@@ -1162,11 +1265,13 @@ def replay(ctx, case):
             eval_exact(ctx, exe, mexe, [case_from_json(case)], stats)
         else:
             eval_assembly(ctx, exe, mexe, [case_from_json(case)], stats)
-    elif s in ("meta", "history"):
+    elif s in ("meta", "history", "nbr"):
         eexe = ctx.cpp("harness/c12_emb.cpp", name="c12_emb", sanitize=False,
                        extra=["-O1", "-UNDEBUG", "-D_GLIBCXX_ASSERTIONS"])
         if s == "meta":
             eval_meta(ctx, eexe, [case], stats, hist)
+        elif s == "nbr":
+            eval_nbr(ctx, eexe, [case], stats, hist)
         else:
             eval_history(ctx, eexe, [case], stats, hist)
     else:
